@@ -58,6 +58,14 @@ def step (f : List String) : Option String :=
           let text := formatAddr sub name h
           let nb : Bytes → Bool := fun _ => false
           s!"ok {toHexD text} at={parseObs (parseAddrLit nb text)} dot={parseObs (parseAddrLit nb (formatAddrDot sub name h))} chain={toHexD (resolveChain host t h)} rt={reachesConfig host t h c}")
+  | ["rcreate", a, b] =>
+      -- MsgCreateRollapp(a) on a branch of the store, then what the lookups say, then MsgCreateRollapp(b)
+      let id := hex! a
+      let id2 := hex! b
+      some (if nonAscii id || nonAscii id2 then "nonascii" else
+        if !createIdOk id then "refused" else
+          let t := trimSpace id
+          s!"ok get-trimmed={decide (t = id)} by-name={isPrefix (rollappByNamePrefix (rollappName t)) (rollappKey id)} second={createIdOk id2 && !rollappExistsAfter id id2}")
   | _ => none
 
 end DymVerif.Driver.C19Addr
